@@ -454,6 +454,28 @@ fn plan_str(p: &SettlementPlan, flags: &mut Vec<String>) -> String {
         out.join(",")
     }
 }
+/// Latch law (settlement.rs: "later suffix entries cannot import past retained plurality" / blocked_reason): once an
+/// entry is residue, nothing after it is imported; decisions follow the suffix ticks one by one.
+fn plan_laws(p: &SettlementPlan, start: u64, flags: &mut Vec<String>, si: usize) {
+    let mut blocked = false;
+    for (i, d) in p.decisions.iter().enumerate() {
+        let (t, imp) = match d {
+            SettlementDecision::ImportCandidate(c) => (c.source_ref.worldline_tick.as_u64(), true),
+            SettlementDecision::ConflictArtifact(c) => (c.source_ref.worldline_tick.as_u64(), false),
+            SettlementDecision::PluralAlternative(c) => (c.source_ref.worldline_tick.as_u64(), false),
+        };
+        if t != start + i as u64 {
+            flags.push(format!("plan:decisions-do-not-follow-suffix@{si}"));
+        }
+        if imp && blocked {
+            flags.push(format!("plan:import-after-residue@{si}"));
+        }
+        if !imp {
+            blocked = true;
+        }
+    }
+}
+
 fn settle_err_class(e: &SettlementError) -> &'static str {
     match e {
         SettlementError::StrandNotFound(_) => "notfound",
@@ -671,6 +693,34 @@ fn run_case(steps: &str) -> (String, String, String, Vec<String>) {
                                 format!("V{}", slots_str(&sorted_set(overlapping_slots.iter().map(|s| slot_of(s, &mut flags)))))
                             }
                         };
+                        // independent recomputation from the two histories: parent-declared writes after the anchor
+                        // that fall into the strand suffix's declared in/out slots
+                        if let Some(info) = strands.get(&sx) {
+                            let start = info.fork_tick + 1;
+                            let plen = w.provenance.len(wl(info.src)).unwrap_or(0);
+                            let clen = w.provenance.len(wl(info.child)).unwrap_or(0);
+                            let mut pw: BTreeSet<u64> = BTreeSet::new();
+                            let mut closed: BTreeSet<u64> = BTreeSet::new();
+                            for t in start..plen {
+                                if let Ok(e) = w.provenance.entry(wl(info.src), wt(t)) {
+                                    if let Some(p) = &e.patch {
+                                        pw.extend(p.out_slots.iter().map(|s| slot_of(s, &mut flags)));
+                                    }
+                                }
+                            }
+                            for t in start..clen {
+                                if let Ok(e) = w.provenance.entry(wl(info.child), wt(t)) {
+                                    if let Some(p) = &e.patch {
+                                        closed.extend(p.in_slots.iter().chain(p.out_slots.iter()).map(|s| slot_of(s, &mut flags)));
+                                    }
+                                }
+                            }
+                            let expect: Vec<u64> = pw.intersection(&closed).copied().collect();
+                            let want = if plen == start { "A".to_string() } else if expect.is_empty() { "D".to_string() } else { format!("V{}", slots_str(&expect)) };
+                            if want != cls {
+                                flags.push(format!("report:class-or-overlap-not-exact@{si}"));
+                            }
+                        }
                         let rd = sorted_set(rp.owned_divergence.read_slots().map(|s| slot_of(s, &mut flags)));
                         let wr = sorted_set(rp.owned_divergence.write_slots().map(|s| slot_of(s, &mut flags)));
                         let pw = sorted_set(rp.parent_movement.write_slots().map(|s| slot_of(s, &mut flags)));
@@ -703,6 +753,7 @@ fn run_case(steps: &str) -> (String, String, String, Vec<String>) {
                         if a != b || a.to_abi() != b.to_abi() {
                             flags.push(format!("plan:not-deterministic@{si}"));
                         }
+                        plan_laws(&a, a.basis_report.source_suffix_start_tick.as_u64(), &mut flags, si);
                         obs.push(format!("P:{}", plan_str(&a, &mut flags)));
                     }
                     (Err(a), Err(b)) => {
@@ -797,6 +848,7 @@ fn run_case(steps: &str) -> (String, String, String, Vec<String>) {
                     Ok(res) => {
                         let (src, child, _k) = info.expect("settled strand is known");
                         let plan_s = plan_str(&res.plan, &mut flags);
+                        plan_laws(&res.plan, res.plan.basis_report.source_suffix_start_tick.as_u64(), &mut flags, si);
                         let fr = w.runtime.worldlines().get(&wl(src)).expect("target frontier");
                         let post = dump(fr.state());
                         let len = w.provenance.len(wl(src)).unwrap_or(0);
